@@ -425,6 +425,24 @@ func cSnapshotReply(c *Check, rule string) {
 		notRestored := tested.HasBool(isCallTo(restore), false) != nil
 		site := p.site(lit.Alloc)
 		switch {
+		case idx != nil && idx.K == KPhi:
+			// one reply whose index was chosen in the two branches: decide per incoming value
+			okAll := true
+			var parts []string
+			edges := phiEdges(fi, idx.V, lit.Alloc)
+			for _, pe := range edges {
+				es := fi.Sym(pe.val)
+				switch {
+				case es.K == KCall && es.Fn == lastIndex:
+					okAll = okAll && pe.facts.HasBool(isCallTo(restore), true) != nil
+				case es.K == KField && es.Fld == committedF:
+					okAll = okAll && pe.facts.HasBool(isCallTo(restore), false) != nil
+				default:
+					okAll = false
+				}
+				parts = append(parts, es.Key())
+			}
+			c.Result(okAll && len(edges) > 0, rule, "snapshot reply (index chosen per outcome)", fnName(handleSnapshot), site, "lastIndex() where restore returned true, committed where it returned false", strings.Join(parts, " | "))
 		case idx != nil && idx.K == KCall && idx.Fn == lastIndex:
 			c.Result(restored, rule, "snapshot success reply", fnName(handleSnapshot), site, "acknowledges lastIndex() only after r.restore(s) returned true", strings.Join(f.Describe(), "; "))
 		case idx != nil && idx.K == KField && idx.Fld == committedF:
